@@ -22,9 +22,9 @@ import uuid
 from . import common
 from .common import Check, Graph, impl_call, skey
 
-INVS = ["Attributed", "OnlyGranted", "Newest", "TempOnce", "SeedReqOK", "SeedRespOK", "ProxyStable"]
+INVS = ["Attributed", "OnlyGranted", "Newest", "TempOnce", "SeedReqOK", "SeedRespOK", "ProxyStable", "GlobalsApart"]
 CONSTS = ("NR = %(NR)d MaxSeed = %(MaxSeed)d MaxTemp = %(MaxTemp)d Grants = {%(Grants)s} PO = {%(PO)s} Wants = {%(Wants)s} "
-          "TN = {%(TN)s} Depth = %(Depth)d")
+          "TN = {%(TN)s} Long = %(Long)d Globals = \"%(Globals)s\" Depth = %(Depth)d")
 T1 = '"UpTemp"'
 T2 = '"UpTemp", "CapB"'
 
@@ -48,7 +48,7 @@ _SM = None
 class World:
     """Fresh real proxy state for `nr` regions: regions 1,2 in session 1, the rest in session 2."""
 
-    def __init__(self, nr: int, ids):
+    def __init__(self, nr: int, ids, globals_="none"):
         from hippolyzer.lib.base.datatypes import UUID
         from hippolyzer.lib.proxy.addons import AddonManager
         from hippolyzer.lib.proxy.http_event_manager import MITMProxyEventManager
@@ -71,12 +71,18 @@ class World:
             sim = 1 if r == 3 else r
             addr = ("127.0.0.%d" % sim, 13000 + sim)
             if s not in self.sessions:
-                self.sessions[s] = self.sm.create_session({
+                login = {
                     "session_id": UUID(int=1000 + s), "secure_session_id": UUID(int=2000 + s),
                     "agent_id": UUID(int=3000 + s), "circuit_code": 100 + s,
                     "sim_ip": addr[0], "sim_port": addr[1], "region_x": 256 * r, "region_y": 256,
                     "seed_capability": ids["r%ds" % r],
-                })
+                }
+                # session-global caps of the login response: keys absent / real URLs / EMPTY strings
+                if globals_ == "urls":
+                    login.update({"agent_appearance_service": ids["ga%d" % s], "map-server-url": ids["gm%d" % s]})
+                elif globals_ == "empty":
+                    login.update({"agent_appearance_service": "", "map-server-url": ""})
+                self.sessions[s] = self.sm.create_session(login)      # Session.from_login_data
                 self.regions[r] = self.sessions[s].regions[-1]
             else:
                 self.regions[r] = self.sessions[s].register_region(addr, seed_url=ids["r%ds" % r], handle=(r << 40) | 7)
@@ -130,6 +136,10 @@ class World:
         n = act["n"]
         if n == "RegisterTemp":
             return impl_call(self.regions[act["r"]].register_cap, act["name"], self.concrete(act["u"]), CapType.TEMPORARY)
+        if n == "LongGrant":
+            return impl_call(self.regions[act["r"]].update_caps, {"CapA": self.concrete(act["u"])})
+        if n == "LongTemp":
+            return impl_call(self.regions[act["r"]].register_cap, "UpTemp", self.concrete(act["u"]), CapType.TEMPORARY)
         if n == "RegisterProxy":
             return impl_call(self.regions[act["r"]].register_proxy_cap, act["name"])
         if n == "Resolve":
@@ -164,6 +174,10 @@ class World:
         n = act["n"]
         if st != "ok":
             return [(n + ": raised", out, got)]
+        if n == "LongGrant":
+            return impl_call(self.regions[act["r"]].update_caps, {"CapA": self.concrete(act["u"])})
+        if n == "LongTemp":
+            return impl_call(self.regions[act["r"]].register_cap, "UpTemp", self.concrete(act["u"]), CapType.TEMPORARY)
         if n == "RegisterProxy":
             sym = out[0]
             if sym not in self.bound:
@@ -256,6 +270,11 @@ def make_ids(rng, nr):
         ids["r%du" % r] = host + uid()
         ids["r%dg" % r] = "http://sim%d.test:9000/CAPS/%s" % (r, uid()[:13])     # simulator's host, another port
         ids["r%dh" % r] = host + uid()                                           # the Seed cap's own host:port
+        for k in range(1, 17):
+            ids["r%dL%d" % (r, k)] = host + uid()
+    for s in (1, 2):
+        ids["ga%d" % s] = "https://appearance%d.test/texture/%s" % (s, uid()[:8])
+        ids["gm%d" % s] = "http://map%d.test/map/%s" % (s, uid()[:8])
     return ids
 
 
@@ -265,6 +284,7 @@ def make_ids(rng, nr):
 _G = None
 _NR = None
 _IDS = None
+_GLOBALS = "none"
 
 
 def _replay_chunk(edge_ids):
@@ -282,7 +302,7 @@ def _replay_chunk(edge_ids):
         else:
             ei = item
         e = g.edges[ei]
-        w = World(_NR, _IDS)
+        w = World(_NR, _IDS, _GLOBALS)
         hist = []
         bad = []
         for pe in g.path_to(pre[0]["_s"] if pre else e["_s"]) + pre:
@@ -350,7 +370,7 @@ def _prefetch(chk: Check, plan):
 
 
 def _b1(chk: Check, consts, label, pair_cap):
-    global _G, _NR, _IDS
+    global _G, _NR, _IDS, _GLOBALS
     chk.require_model_ok(_TLC.pop(("mc", label)), "Caps " + label)
     res = _TLC.pop(("mbt", label))
     if not res.ok:
@@ -369,11 +389,11 @@ def _b1(chk: Check, consts, label, pair_cap):
     g = Graph(edges)
     if len(g.edges) < 100:
         raise common.MachineryError("Caps_MBT exported only %d edges" % len(g.edges))
-    _G, _NR, _IDS = g, consts["NR"], make_ids(chk.rng, consts["NR"])
+    _G, _NR, _IDS, _GLOBALS = g, consts["NR"], make_ids(chk.rng, consts["NR"]), consts["Globals"]
     pairs = g.merge_pairs(pair_cap)
     ids = g.reachable_edges() + pairs
     chk.cov["b1_merge_pairs_replayed"] = chk.cov.get("b1_merge_pairs_replayed", 0) + len(pairs)
-    World(consts["NR"], _IDS)       # import the implementation once, before forking
+    World(consts["NR"], _IDS, _GLOBALS)       # import the implementation once, before forking
     gc.collect()
     gc.freeze()                     # the exported graph is shared read-only with the workers
     results = common.parallel_map(_replay_chunk, common.chunked(ids, common.NCPU * 8))
@@ -421,6 +441,7 @@ def run(chk: Check):
                        "full observation compared; non-trivial = edges that change the abstract state or re-register a proxy-only cap.")
     chk.assumptions += [
         "a simulator grants only caps the (rewritten) seed request asked for",
+        "session-global cap URLs of the login response (when present and non-empty) are prefix-unrelated to region cap URLs",
         "a granted URL belongs to one cap name (asset-server names may share one) and, the shared asset URL apart, to one region; "
         "prefix-related URLs therefore live in one region",
         "seed URLs are distinct per region and fixed; requested cap names are listed once; regions of one session have "
@@ -431,29 +452,33 @@ def run(chk: Check):
     ]
     plan = []
     if chk.tier == "quick":
-        plan.append(("b1", dict(NR=2, MaxSeed=2, MaxTemp=2, Grants="1,2,3,4,5,6,7,9,10", PO=P1, Wants="1,2", TN=T1, Depth=5), "2r-d5", 6000))
+        plan.append(("b1", dict(NR=2, MaxSeed=2, MaxTemp=2, Grants="1,2,3,4,5,6,7,9,10", PO=P1, Wants="1,2", TN=T1, Long=0, Globals="urls", Depth=5), "2r-d5", 6000))
         # two sessions, asset URL shared across sessions (no one-shot caps)
-        plan.append(("b1", dict(NR=3, MaxSeed=2, MaxTemp=0, Grants="1,5,6,10", PO=P1, Wants="1,2", TN=T1, Depth=5), "3r-d5-small", 2000))
+        plan.append(("b1", dict(NR=3, MaxSeed=2, MaxTemp=0, Grants="1,5,6,10", PO=P1, Wants="1,2", TN=T1, Long=0, Globals="empty", Depth=5), "3r-d5-small", 2000))
         # long grant histories of ONE name in one region: re-grants of an earlier URL (a c a, a c a c, a ax a ..)
-        plan.append(("b1", dict(NR=1, MaxSeed=4, MaxTemp=0, Grants="1,2,8", PO=P1, Wants="1,2", TN=T1, Depth=9), "1r-regrant-d9", 1500))
+        plan.append(("b1", dict(NR=1, MaxSeed=4, MaxTemp=0, Grants="1,2,8", PO=P1, Wants="1,2", TN=T1, Long=0, Globals="none", Depth=9), "1r-regrant-d9", 1500))
         # two proxy-only caps, seed requests naming them in every order / adjacency
-        plan.append(("b1", dict(NR=1, MaxSeed=2, MaxTemp=0, Grants="1,5", PO=P2, Wants="1,2,3,4,5,6,7", TN=T1, Depth=7), "1r-proxy2-d7", 1000))
+        plan.append(("b1", dict(NR=1, MaxSeed=2, MaxTemp=0, Grants="1,5", PO=P2, Wants="1,2,3,4,5,6,7", TN=T1, Long=0, Globals="none", Depth=7), "1r-proxy2-d7", 1000))
         # one-shot URLs above / below granted URLs, registered before and after the grant, consumed, re-registered
-        plan.append(("b1", dict(NR=1, MaxSeed=2, MaxTemp=2, Grants="1,3,9", PO="", Wants="1", TN=T1, Depth=8), "1r-temps-d8", 1000))
+        plan.append(("b1", dict(NR=1, MaxSeed=2, MaxTemp=2, Grants="1,3,9", PO="", Wants="1", TN=T1, Long=0, Globals="none", Depth=8), "1r-temps-d8", 1000))
         # several live entries under ONE name (ordinary grant + up to three one-shot caps), used up in any order
-        plan.append(("b1", dict(NR=1, MaxSeed=1, MaxTemp=3, Grants="4", PO="", Wants="1", TN=T2, Depth=8), "1r-temps3-d8", 1500))
-        plan.append(("algo", dict(NR=1, MaxSeed=2, MaxTemp=1, Grants="1,3,9", PO=P2, Wants="1,3,5", TN=T1, Depth=6), "1r-d6-small"))
+        plan.append(("b1", dict(NR=1, MaxSeed=1, MaxTemp=3, Grants="4", PO="", Wants="1", TN=T2, Long=0, Globals="none", Depth=8), "1r-temps3-d8", 1500))
+        # a LONG history under one name: 10 grants (CapA) / one-shot registrations (UpTemp) in every mix
+        plan.append(("b1", dict(NR=1, MaxSeed=0, MaxTemp=0, Grants="", PO="", Wants="1", TN=T1, Long=10, Globals="none", Depth=11), "1r-long10", 500))
+        plan.append(("algo", dict(NR=1, MaxSeed=2, MaxTemp=1, Grants="1,3,9", PO=P2, Wants="1,3,5", TN=T1, Long=0, Globals="none", Depth=6), "1r-d6-small"))
     else:
-        plan.append(("b1", dict(NR=3, MaxSeed=2, MaxTemp=1, Grants="1,2,3,4,5,6,7,9,10", PO=P1, Wants="1,2", TN=T1, Depth=5), "3r-d5", 20000))
-        plan.append(("b1", dict(NR=2, MaxSeed=3, MaxTemp=2, Grants="1,2,3,4,5,6,7,8,9,10", PO=P1, Wants="1,2", TN=T1, Depth=6), "2r-d6", 30000))
-        plan.append(("b1", dict(NR=1, MaxSeed=5, MaxTemp=0, Grants="1,2,3,8", PO=P1, Wants="1,2", TN=T1, Depth=11), "1r-regrant-d11", 10000))
-        plan.append(("b1", dict(NR=2, MaxSeed=2, MaxTemp=0, Grants="1,5", PO=P2, Wants="1,2,3,4,5,6,7", TN=T1, Depth=7), "2r-proxy2-d7", 10000))
-        plan.append(("b1", dict(NR=1, MaxSeed=3, MaxTemp=2, Grants="1,2,3,9", PO=P1, Wants="1,2", TN=T1, Depth=9), "1r-temps-d9", 10000))
-        plan.append(("b1", dict(NR=1, MaxSeed=2, MaxTemp=3, Grants="4,9", PO="", Wants="1", TN=T2, Depth=9), "1r-temps3-d9", 10000))
-        plan.append(("algo", dict(NR=1, MaxSeed=1, MaxTemp=3, Grants="4", PO="", Wants="1", TN=T2, Depth=8), "1r-temps3-d8"))
-        plan.append(("algo", dict(NR=2, MaxSeed=2, MaxTemp=1, Grants="1,2,3,4,5,6,7,8,9,10", PO=P1, Wants="1,2", TN=T1, Depth=5), "2r-d5"))
-        plan.append(("algo", dict(NR=1, MaxSeed=4, MaxTemp=0, Grants="1,2,8", PO=P1, Wants="1,2", TN=T1, Depth=9), "1r-regrant-d9"))
-        plan.append(("algo", dict(NR=1, MaxSeed=2, MaxTemp=1, Grants="1,3,9", PO=P2, Wants="1,2,3,4,5,6,7", TN=T1, Depth=7), "1r-proxy2-d7"))
+        plan.append(("b1", dict(NR=3, MaxSeed=2, MaxTemp=1, Grants="1,2,3,4,5,6,7,9,10", PO=P1, Wants="1,2", TN=T1, Long=0, Globals="empty", Depth=5), "3r-d5", 20000))
+        plan.append(("b1", dict(NR=2, MaxSeed=3, MaxTemp=2, Grants="1,2,3,4,5,6,7,8,9,10", PO=P1, Wants="1,2", TN=T1, Long=0, Globals="urls", Depth=6), "2r-d6", 30000))
+        plan.append(("b1", dict(NR=1, MaxSeed=5, MaxTemp=0, Grants="1,2,3,8", PO=P1, Wants="1,2", TN=T1, Long=0, Globals="none", Depth=11), "1r-regrant-d11", 10000))
+        plan.append(("b1", dict(NR=2, MaxSeed=2, MaxTemp=0, Grants="1,5", PO=P2, Wants="1,2,3,4,5,6,7", TN=T1, Long=0, Globals="none", Depth=7), "2r-proxy2-d7", 10000))
+        plan.append(("b1", dict(NR=1, MaxSeed=3, MaxTemp=2, Grants="1,2,3,9", PO=P1, Wants="1,2", TN=T1, Long=0, Globals="none", Depth=9), "1r-temps-d9", 10000))
+        plan.append(("b1", dict(NR=1, MaxSeed=2, MaxTemp=3, Grants="4,9", PO="", Wants="1", TN=T2, Long=0, Globals="none", Depth=9), "1r-temps3-d9", 10000))
+        plan.append(("b1", dict(NR=1, MaxSeed=0, MaxTemp=0, Grants="", PO="", Wants="1", TN=T1, Long=12, Globals="none", Depth=13), "1r-long12", 500))
+        plan.append(("algo", dict(NR=1, MaxSeed=0, MaxTemp=0, Grants="", PO="", Wants="1", TN=T1, Long=10, Globals="none", Depth=11), "1r-long10"))
+        plan.append(("algo", dict(NR=1, MaxSeed=1, MaxTemp=3, Grants="4", PO="", Wants="1", TN=T2, Long=0, Globals="none", Depth=8), "1r-temps3-d8"))
+        plan.append(("algo", dict(NR=2, MaxSeed=2, MaxTemp=1, Grants="1,2,3,4,5,6,7,8,9,10", PO=P1, Wants="1,2", TN=T1, Long=0, Globals="none", Depth=5), "2r-d5"))
+        plan.append(("algo", dict(NR=1, MaxSeed=4, MaxTemp=0, Grants="1,2,8", PO=P1, Wants="1,2", TN=T1, Long=0, Globals="none", Depth=9), "1r-regrant-d9"))
+        plan.append(("algo", dict(NR=1, MaxSeed=2, MaxTemp=1, Grants="1,3,9", PO=P2, Wants="1,2,3,4,5,6,7", TN=T1, Long=0, Globals="none", Depth=7), "1r-proxy2-d7"))
     _prefetch(chk, plan)
     for item in plan:
         if item[0] == "b1":
